@@ -1,6 +1,6 @@
 Require Import ExtrOcamlBasic.
-Require Import GV.Model.C01_io GV.Model.C01a_io.
-Definition vp_run := c01x_run.
-Definition vp_check := c01x_check.
-Definition vp_nontriv := c01x_nontriv.
+Require Import GV.Model.C01_io GV.Model.C01a_io GV.Model.C01r_io.
+Definition vp_run := c01y_run.
+Definition vp_check := c01y_check.
+Definition vp_nontriv := c01y_nontriv.
 Extraction "model.ml" vp_run vp_check vp_nontriv.
